@@ -1120,3 +1120,22 @@ Proof.
   - destruct (contains area q) eqn:E; [|reflexivity]. rewrite (H q E) in Hq. discriminate.
   - contradiction.
 Qed.
+
+(* ---- ContiguousIteratorExt::into_pixels: the second copy of the row-major pairing ------------------------------- *)
+Theorem into_pixels_spec area cs p :
+  rect_fits area ->
+  last_write p (into_pixels area cs) = if contains area p then sget cs (idx_in area p) else None.
+Proof. apply last_write_szip_points. Qed.
+
+Theorem into_pixels_default_fill bb area cs m :
+  draw_iter bb (into_pixels area cs) m = default_fill_contiguous bb area cs m.
+Proof. reflexivity. Qed.
+
+(* every point at most once, in row-major order: the positions are a prefix of area.points() *)
+Theorem into_pixels_positions area (l : list color) :
+  map fst (into_pixels area (Fin l)) = firstn (length l) (points area).
+Proof.
+  unfold into_pixels. cbn [szip]. generalize (points area) as pts. intros pts. revert l.
+  induction pts as [|a pts IH]; intros [|c l]; cbn [zip map fst length firstn]; try reflexivity.
+  rewrite IH. reflexivity.
+Qed.
